@@ -69,6 +69,7 @@ type tcase struct {
 	hasCur    bool
 	curMin    int
 	curMax    int
+	onlyMin   bool // the request differs from the stored pin in the minimum only
 	reqMin    int
 	reqMax    int
 	defMin    int
@@ -110,7 +111,7 @@ func (c *tcase) String() string {
 		cur = fmt.Sprintf("%s(%d/%d)", plist(c.cur), c.curMin, c.curMax)
 	}
 	return fmt.Sprintf("%s entry=%s peerset=%s metrics={%s} current=%s request=%d/%d defaults=%d/%d prio=%s removed=P%d",
-		c.alloc, c.entry, plist(c.peerset), strings.Join(st, " "), cur, c.reqMin, c.reqMax, c.defMin, c.defMax, plist(c.prio), idx(c.removed))
+		c.alloc, c.entry+map[bool]string{true: "(only-min)", false: ""}[c.onlyMin], plist(c.peerset), strings.Join(st, " "), cur, c.reqMin, c.reqMax, c.defMin, c.defMax, plist(c.prio), idx(c.removed))
 }
 
 func contains(l []peer.ID, p peer.ID) bool {
@@ -174,6 +175,17 @@ func drawCase(t *rapid.T) *tcase {
 			c.prio = nil
 		}
 	}
+	// one "pin" case in five re-pins the current entry changing nothing but
+	// the minimum (same name, same maximum, no preferred peers): the change
+	// must still reach the allocator
+	if c.entry == "pin" && c.hasCur && c.curMax >= 2 && rapid.IntRange(0, 4).Draw(t, "onlyMin") == 0 {
+		m := rapid.IntRange(1, c.curMax).Draw(t, "newMin")
+		if m != c.curMin {
+			c.onlyMin = true
+			c.reqMin, c.reqMax = m, c.curMax
+			c.prio = nil
+		}
+	}
 	return c
 }
 
@@ -230,6 +242,9 @@ func TestAllocations(t *testing.T) {
 		if c.hasCur {
 			cur := api.PinCid(ci)
 			cur.Name = "current"
+			if c.onlyMin {
+				cur.Name = "request"
+			}
 			cur.Allocations = c.cur
 			cur.ReplicationFactorMin, cur.ReplicationFactorMax = c.curMin, c.curMax
 			f.S.Put(cur)
@@ -324,6 +339,9 @@ func TestAllocations(t *testing.T) {
 			}
 		}
 		classes := []string{"entry:" + c.entry, "alloc:" + c.alloc}
+		if c.onlyMin {
+			classes = append(classes, "only-min-changed")
+		}
 		failed := err != nil
 		nontrivial := false
 
